@@ -17,11 +17,13 @@ pub struct Probe {
     pub d: i64,
     pub zero_time: bool,
     pub zero_time2: bool,
+    /// first reading of the probe, if not the default BASE + i * STEP (wrap-around of the counter)
+    pub time: Option<u64>,
 }
 
 impl Probe {
     pub fn d(d: i64) -> Probe {
-        Probe { d, zero_time: false, zero_time2: false }
+        Probe { d, zero_time: false, zero_time2: false, time: None }
     }
 }
 
@@ -31,11 +33,11 @@ pub fn build(probes: &[Probe]) -> Vec<u64> {
     let mut r = Vec::with_capacity(1 + 4 * probes.len() + 8);
     r.push(BASE - 1000);
     for (i, p) in probes.iter().enumerate() {
-        let time = BASE + (i as u64) * STEP;
+        let time = p.time.unwrap_or(BASE + (i as u64) * STEP);
         let time2 = time.wrapping_add(p.d as u64);
         r.push(if p.zero_time { 0 } else { time });
-        r.push(time + 3);
-        r.push(time + 5);
+        r.push(time.wrapping_add(3));
+        r.push(time.wrapping_add(5));
         r.push(if p.zero_time2 { 0 } else { time2 });
     }
     // a few spare readings so that an implementation that reads more does not hit the horizon at once
@@ -315,6 +317,30 @@ pub fn cases(thorough: bool) -> Vec<Case> {
         }
         cs.push(Case { before: 0, label: format!("trunc-mult100 (2^32+100m) x{}", n), probes: p });
     }
+    // differences of 2^63 and more between the two readings of a probe, and a counter that wraps around
+    // inside a probe: "second reading not larger" is a statement about the readings themselves
+    for n in [3usize, 4, 5] {
+        // forward steps of 2^63 + small: the second reading *is* larger
+        let mut p = base.clone();
+        for j in 0..n {
+            p[120 + 17 * j].d = i64::MIN + 1_000 + 13 * j as i64;
+        }
+        cs.push(Case { before: 0, label: format!("{} probes with a forward step of 2^63+d", n), probes: p });
+        // the counter wraps inside the probe: the second reading is smaller although the wrapped difference is small
+        let mut p = base.clone();
+        for j in 0..n {
+            p[130 + 19 * j].time = Some(u64::MAX - 2 - j as u64);
+            p[130 + 19 * j].d = 1_200 + 11 * j as i64;
+        }
+        cs.push(Case { before: 0, label: format!("{} probes during which the counter wraps around", n), probes: p });
+        // backward by 2^63 + small (second reading smaller by a huge amount)
+        let mut p = base.clone();
+        for j in 0..n {
+            p[140 + 23 * j].time = Some((1u64 << 63) + 5_000_000 + 4_001 * j as u64);
+            p[140 + 23 * j].d = i64::MIN + 977 + j as i64;
+        }
+        cs.push(Case { before: 0, label: format!("{} probes with a backward step of 2^63-d", n), probes: p });
+    }
     // staircases: every delta repeated r times, then stepped by s (a, a, b, b, c, c, ... with equal
     // steps): exactly the repeats are stuck; a stuck test whose history goes stale on a stuck probe would
     // also count the steps
@@ -344,7 +370,11 @@ pub fn cases(thorough: bool) -> Vec<Case> {
         }
     }
     // (b2) variation sums around the TinyVariations boundary with 1..3 tolerated backward probes
-    for sum in [590u64, 598, 599, 600, 601, 614, 650, 1199, 1200] {
+    let mut sums: Vec<u64> = vec![590u64, 598, 599, 600, 601, 614, 650, 1199, 1200];
+    // ... and around the switch from the lookup table to the formula (mean 15 / 16), where an average
+    // taken over fewer samples or rounded differently changes the branch
+    sums.extend(4560..=4860);
+    for sum in sums {
         for nb in 1..=3usize {
             if let Some(ds) = deltas_for_sum(sum) {
                 let mut p: Vec<Probe> = (0..100).map(|i| Probe::d(warmup(i))).collect();
@@ -395,7 +425,7 @@ pub struct CaseOutcome {
 }
 
 pub fn case_replay_json(c: &Case) -> serde_json::Value {
-    json!({"kind":"jitter-test-timer","label":c.label,"before":c.before,"probe_differences":c.probes.iter().map(|p| p.d).collect::<Vec<_>>(),"zero_time":c.probes.iter().enumerate().filter(|(_,p)| p.zero_time).map(|(i,_)| i).collect::<Vec<_>>(),"zero_time2":c.probes.iter().enumerate().filter(|(_,p)| p.zero_time2).map(|(i,_)| i).collect::<Vec<_>>()})
+    json!({"kind":"jitter-test-timer","label":c.label,"before":c.before,"probe_differences":c.probes.iter().map(|p| p.d).collect::<Vec<_>>(),"zero_time":c.probes.iter().enumerate().filter(|(_,p)| p.zero_time).map(|(i,_)| i).collect::<Vec<_>>(),"zero_time2":c.probes.iter().enumerate().filter(|(_,p)| p.zero_time2).map(|(i,_)| i).collect::<Vec<_>>(),"time_overrides":c.probes.iter().enumerate().filter_map(|(i,p)| p.time.map(|t| json!([i, t.to_string()]))).collect::<Vec<_>>()})
 }
 
 pub fn case_from_json(r: &serde_json::Value) -> Option<Case> {
@@ -406,6 +436,11 @@ pub fn case_from_json(r: &serde_json::Value) -> Option<Case> {
     }
     for i in r.get("zero_time2").and_then(|a| a.as_array()).map(|a| a.iter().filter_map(|x| x.as_u64()).collect::<Vec<_>>()).unwrap_or_default() {
         probes.get_mut(i as usize)?.zero_time2 = true;
+    }
+    for ov in r.get("time_overrides").and_then(|a| a.as_array()).cloned().unwrap_or_default() {
+        let i = ov.get(0)?.as_u64()? as usize;
+        let t: u64 = ov.get(1)?.as_str()?.parse().ok()?;
+        probes.get_mut(i)?.time = Some(t);
     }
     Some(Case { before: r.get("before").and_then(|b| b.as_u64()).unwrap_or(0) as u8, label: r.get("label").and_then(|l| l.as_str()).unwrap_or("replayed script").to_string(), probes })
 }
